@@ -4,7 +4,7 @@
 From Coq Require Import String Ascii List Bool Arith.
 From LV Require Import Base.Prelude Shape.Chain Shape.Spec Shape.Chain_proofs Shape.Shape_proofs
   Shape.Ebnf Shape.Ebnf_proofs Cfg.Grammar Forest.Sppf Forest.Prio Forest.ExplicitBuild
-  Shape.EarleyLeg Shape.EarleyLeg_proofs Shape.Cnf Shape.Cnf_proofs Shape.CykParse Shape.CykParse_proofs Shape.CnfLink Shape.CnfLink_proofs Shape.CnfClosure_proofs.
+  Shape.EarleyLeg Shape.EarleyLeg_proofs Shape.Cnf Shape.Cnf_proofs Shape.CykParse Shape.CykParse_proofs Shape.CnfLink Shape.CnfLink_proofs Shape.CnfClosure_proofs Shape.ToCnf_proofs.
 Import ListNotations.
 Local Open Scope string_scope.
 
@@ -109,9 +109,9 @@ Theorem C03_cyk_is_shape rules mp d :
 Proof. exact (fun Ht => cyk_is_shape rules mp Ht d). Qed.
 Print Assumptions C03_cyk_is_shape.
 
-(* Open (_partial): (1) grammar level - every tree cyk._parse can build over the rules of
-   to_cnf(G) is the pre-image of a derivation of G, and every pre-image is such a tree.  Not a
-   theorem; on every run the harness compares lark's CNF grammar with [to_cnf] (as sets) and checks,
+(* (1) grammar level - every tree cyk._parse can build over the rules of
+   to_cnf(G) is the pre-image of a derivation of G, and every pre-image is such a tree.  Proved in round 10
+   (C03_cnf_roundtrip below); additionally on every run the harness compares lark's CNF grammar with [to_cnf] (as sets) and checks,
    for every CYK parse, that lark's CNF tree equals [cnf_of] of the reverted derivation, so the
    theorems above apply to each observed parse. *)
 Definition C03_cnf_roundtrip_full_statement : Prop :=
@@ -145,7 +145,7 @@ Proof. exact (fun H => cyk_parse_unique g w start H c). Qed.
 Print Assumptions C03_cyk_chart_unique.
 
 (* The link between the CNF grammar and the original one, i.e. the two halves of
-   C03_cnf_roundtrip_full_statement for one grammar g = to_cnf(G) (open at grammar level, checked on
+   C03_cnf_roundtrip_full_statement for one grammar g = to_cnf(G) (proved: C03_cnf_link, C03_cnf_roundtrip; also checked on
    every run: set equality of lark's CNF grammar with the model, pre-image equality of every parse) *)
 Definition cnf_link_sound (rules : list rrec) (g : list crule) : Prop :=
   forall c n, cder g c (CN (NOrig n)) -> exists d, wf_otree rules d = true /\ c = cnf_of rules d.
@@ -241,19 +241,69 @@ Proof.
 Qed.
 Print Assumptions C03_cyk_engine.
 
-(* What stays open (_partial): that the TERM / BIN / UNIT passes of to_cnf produce such a grammar.  It is evaluated
-   by vm_compute for every grammar of the CYK stream, on the model's output AND on the grammar lark built. *)
-Definition C03_to_cnf_closure_full_statement : Prop :=
-  forall rules fuel g, to_cnf fuel rules = Ok g ->
-    Forall (fun r => r_exp r <> []) rules -> closure_check rules g = true /\ (forall r, In r g -> cnf_shape r = true).
+(* Round 10: the passes of to_cnf are proved to produce exactly the characterised rules.  TERM and BIN: direct
+   membership lemmas (in_term_step, in_g0); UNIT: the loop invariant [inv] (every rule is a term rule, a split rule
+   or the head of a partial chain of unit rules; every full chain has a prefix whose head is present) is preserved
+   by _remove_unit_rule (remove_unit_inv) and becomes the characterisation when no unit rule is left (inv_exit).
+   No acyclicity assumption: the statement is about runs in which the loop terminates (to_cnf .. = Ok g); on
+   cyclic unit rules lark's loop does not terminate (Lark(grammar, parser='cyk') hangs: see the report). *)
+Theorem C03_to_cnf_closure rules fuel g : to_cnf fuel rules = Ok g -> unit_closure_spec rules g.
+Proof. exact (to_cnf_closure rules fuel g). Qed.
+Print Assumptions C03_to_cnf_closure.
+
+Theorem C03_to_cnf_shape rules fuel g :
+  to_cnf fuel rules = Ok g -> (forall rid, rid < length rules -> exp_of rules rid <> []) ->
+  forall r, In r g -> cnf_shape r = true.
+Proof. exact (to_cnf_shape rules fuel g). Qed.
+Print Assumptions C03_to_cnf_shape.
+
+(* cnf_roundtrip, both directions, for the grammar to_cnf builds (the former C03_cnf_roundtrip_full_statement) *)
+Theorem C03_cnf_roundtrip rules fuel g : to_cnf fuel rules = Ok g ->
+  (forall c n, cder g c (CN (NOrig n)) ->
+     exists d, wf_otree rules d = true /\ c = cnf_of rules d /\ to_otree (revert c) = Some d /\ oyield d = cyield c) /\
+  (forall rid ch, wf_otree rules (ONode rid ch) = true ->
+     cder g (cnf_of rules (ONode rid ch)) (CN (NOrig (r_origin (rule_n rules rid))))).
+Proof.
+  intros H. destruct (to_cnf_closure rules fuel g H) as [Hs Hc]. split.
+  - intros c n Hd. destruct (link_sound rules g Hs c n Hd) as (d & Hw & ->). exists d. repeat split; auto.
+    + apply cnf_roundtrip_complete. exact Hw.
+    + symmetry. apply cnf_roundtrip_yield. exact Hw.
+  - intros rid ch Hwf. exact (link_complete rules g Hc rid ch Hwf).
+Qed.
+Print Assumptions C03_cnf_roundtrip.
+
+(* the CYK engine, for the grammar to_cnf builds from a rule table without empty rules: no hypothesis left *)
+Theorem C03_cyk_engine_to_cnf rules mp fuel g start :
+  Forall (fun r => rule_wf r mp = true /\ inline_ok r = true) rules ->
+  (forall rid, rid < length rules -> exp_of rules rid <> []) ->
+  to_cnf fuel rules = Ok g ->
+  (forall w c, cyk_parse g w start = Some c ->
+     exists d, wf_otree rules d = true /\ oroot_is rules start d /\ oyield d = w /\
+               cyk_result rules mp c = shape mp (o_dtree rules d)) /\
+  (forall rid ch, wf_otree rules (ONode rid ch) = true -> r_origin (rule_n rules rid) = start ->
+     exists c, cyk_parse g (oyield (ONode rid ch)) start = Some c) /\
+  (forall d, wf_otree rules d = true -> oroot_is rules start d ->
+     (forall d', wf_otree rules d' = true -> oroot_is rules start d' -> oyield d' = oyield d -> d' = d) ->
+     cyk_parse g (oyield d) start = Some (cnf_of rules d) /\
+     cyk_result rules mp (cnf_of rules d) = shape mp (o_dtree rules d)).
+Proof.
+  intros Ht Hne H. destruct (to_cnf_closure rules fuel g H) as [Hs Hc].
+  assert (Hls : cnf_link_sound rules g) by (intros c n Hd; exact (link_sound rules g Hs c n Hd)).
+  assert (Hlc : cnf_link_complete rules g) by (intros rid ch Hwf; exact (link_complete rules g Hc rid ch Hwf)).
+  pose proof (to_cnf_shape rules fuel g H Hne) as Hsh. split; [|split].
+  - intros w c. exact (C03_cyk_returns_shape_of_derivation rules mp g w start c Ht Hls).
+  - intros rid ch. exact (C03_cyk_accepts_sentences rules g start rid ch Hsh Hlc).
+  - intros d. exact (C03_cyk_unambiguous rules mp g start d Ht Hsh Hls Hlc).
+Qed.
+Print Assumptions C03_cyk_engine_to_cnf.
 
 (* engines agree: whatever derivation d of the input the engines follow, each returns shape(d):
    LALR's value-stack driver along d, CYK on the CNF pre-image of d, Earley's resolve-mode walk on a
    forest whose selected derivation is d.  With a unique derivation of the input these are the same
    d.  _partial: that LALR's table driver follows a derivation of the input is C02's driver
    theorem; for CYK the chart (the C03_cyk_chart theorems) and the link between the CNF grammar and G (C03_cnf_link) are
-   proved, so C03_cyk_engine holds for every CNF grammar passing the decidable closure_check; only that to_cnf's
-   passes produce such a grammar (C03_to_cnf_closure_full_statement, evaluated per grammar) stays open; that lark's SPPF is an unfolding of
+   proved and to_cnf is proved to build such a grammar (C03_to_cnf_closure), so C03_cyk_engine_to_cnf has no
+   hypothesis left for CYK; that lark's SPPF is an unfolding of
    a forest of add_family-shaped families whose stored derivations are all derivations is C04
    layer A (C03_earley_resolve_is_shape_of_derivation composes it). *)
 Theorem C03_engines_agree_partial rules mp d s ts :
